@@ -12,7 +12,7 @@ for sid in ids:
     props = meta.get('checks') or [meta['property']]
     tmp = tempfile.mkdtemp(prefix='seeded_', dir='/var/tmp')
     try:
-        subprocess.run('git -C /repo archive HEAD gmlc | tar -x -C %s' % tmp, shell=True, check=True)
+        subprocess.run('git -C /repo archive %s gmlc | tar -x -C %s' % (meta.get('base_commit', 'HEAD'), tmp), shell=True, check=True)
         r = subprocess.run(['git', 'apply', '--directory=' + os.path.relpath(tmp, '/'), '--unsafe-paths', os.path.join(d, 'patch.diff')], cwd='/', capture_output=True, text=True)
         if r.returncode != 0:
             r = subprocess.run(['patch', '-p1', '-d', tmp, '-i', os.path.join(d, 'patch.diff')], capture_output=True, text=True)
